@@ -58,6 +58,15 @@ void dumpEpsDraws(vio::Out & o, const RandomEngine & e, size_t A) {
     const size_t r = rd(c);
     o << u << r;
 }
+// setEpsilon calls before the dumps: prints (thrown, getEpsilon()) per call
+template <typename E> void applyEpsSets(vio::Out & o, E & e, const std::vector<double> & sets) {
+    o << (size_t) sets.size();
+    for (double v : sets) {
+        bool thrown = false;
+        try { e.setEpsilon(v); } catch (const std::invalid_argument &) { thrown = true; }
+        o << thrown << e.getEpsilon();
+    }
+}
 }
 
 void c09_greedy(const std::string & kind, vio::Cursor & c, vio::Out & o) {
@@ -82,12 +91,14 @@ void c09_greedy(const std::string & kind, vio::Cursor & c, vio::Out & o) {
         c.next();
         const Vector q = toVector(c.nextDoubles());
         const double eps = c.nextDouble();
+        const std::vector<double> esets = c.nextDoubles();
         const unsigned seed = (unsigned) c.nextSize();
         const size_t nsamp = c.nextSize();
         const size_t A = q.size();
         Seeder::setRootSeed(seed);
         BGreedy g(q);
         BEps e(g, eps);
+        applyEpsSets(o, e, esets);
         dump(o, e.getPolicy());
         { std::vector<double> pr; for (size_t a = 0; a < A; ++a) pr.push_back(e.getActionProbability(a)); o.list(pr); }
         o << nsamp;
@@ -102,10 +113,12 @@ void c09_greedy(const std::string & kind, vio::Cursor & c, vio::Out & o) {
         MDP::QFunction q(S, A);
         for (size_t s = 0; s < S; ++s) for (size_t a = 0; a < A; ++a) q(s, a) = c.nextDouble();
         const double eps = c.nextDouble();
+        const std::vector<double> esets = c.nextDoubles();
         const unsigned seed = (unsigned) c.nextSize();
         Seeder::setRootSeed(seed);
         MGreedy g(q);
         MEps e(g, eps);
+        applyEpsSets(o, e, esets);
         const Matrix2D pg = g.getPolicy(), pe = e.getPolicy();
         std::vector<double> t1, t2, t3, t4;
         for (size_t s = 0; s < S; ++s) for (size_t a = 0; a < A; ++a) {
